@@ -1749,12 +1749,14 @@ where
     match ctrl {
       ControlOperator::EQ => {
         match target {
-          Type2::Typename { ident, .. } => {
-            if is_ident_string_data_type(self.state.cddl, ident)
-              || is_ident_numeric_data_type(self.state.cddl, ident)
-            {
-              return self.visit_type2(controller);
+          Type2::Typename { .. } | Type2::ParenthesizedType { .. } => {
+            // the value must belong to the target type and equal the controller
+            let error_count = self.errors.len();
+            self.visit_type2(target)?;
+            if self.errors.len() == error_count {
+              self.visit_type2(controller)?;
             }
+            return Ok(());
           }
           Type2::Array { .. } => {
             if let Value::Array(_) = &self.cbor {
@@ -1781,15 +1783,23 @@ where
       }
       ControlOperator::NE => {
         match target {
-          Type2::Typename { ident, .. } => {
-            if is_ident_string_data_type(self.state.cddl, ident)
-              || is_ident_numeric_data_type(self.state.cddl, ident)
-            {
-              self.state.ctrl = Some(ctrl);
+          Type2::Typename { .. } | Type2::ParenthesizedType { .. } => {
+            // the value must belong to the target type and differ from the
+            // controller: the controller is tried speculatively
+            let error_count = self.errors.len();
+            self.visit_type2(target)?;
+            if self.errors.len() == error_count {
               self.visit_type2(controller)?;
-              self.state.ctrl = None;
-              return Ok(());
+              if self.errors.len() == error_count {
+                self.add_error(format!(
+                  "expected value .ne {}, got {:?}",
+                  controller, self.cbor
+                ));
+              } else {
+                self.errors.truncate(error_count);
+              }
             }
+            return Ok(());
           }
           Type2::Array { .. } => {
             if let Value::Array(_) = &self.cbor {
